@@ -27,6 +27,35 @@ ROOT = ("attr", ("attr", ("self",), "_file"), "_h5group")
 OWN = ("attr", ("self",), "_h5group")
 
 
+def role_link_rule(M, rep, R3, ctx):
+    """every H5Group.delete whose receiver is the analysed entity's own group keeps delete_if_empty off. Shared with C02."""
+    n3 = 0
+    for cn, name, tb, f in surface(M, ENTITY_CLASSES, ("methods", "setters", "deleters")):
+        if not ctx.cg.writes(f):
+            continue
+        direct = ctx.cg.ops.get(f.qual, ())
+        if not any(o[0] == "layer" and o[1] == "H5Group.delete" for o in direct):
+            continue
+        key = api_key(cn, name, tb)
+        bad = None
+        cnt = 0
+        for p in ctx.paths(f, cn):
+            for e in p.events:
+                if e.kind == "layer" and e.op == "H5Group.delete" and e.recv.t == OWN and e.func == f.qual:
+                    cnt += 1
+                    die = e.kw.get("delete_if_empty")
+                    if die is None or not (is_const(die) and die.t[1] is False):
+                        bad = (p, e)
+        if cnt:
+            n3 += 1
+            rep.check(R3, key, bad is None, "%s unlinks %r on the entity's own group with delete_if_empty left on: when the "
+                      "entity has no other children the entity itself is removed from its parent" % (
+                          key, ctx.fx.key(bad[1]) if bad else ""), site=bad[1].site if bad else None,
+                      detail=describe_path(bad[0]) if bad else None)
+
+    return n3
+
+
 def run(M, rep, tier, only=None):
     ctx = Ctx(M)
     R1 = rep.rule("C04.R1", "entity deletion = delete_all on the file root with the item's (subtree) ids", floor=3,
@@ -97,30 +126,7 @@ def run(M, rep, tier, only=None):
         rep.check(R2, key, bad is None and nok > 0, bad[1] if bad else "no normal path", site=f.file + ":%d" % f.node.lineno,
                   detail=describe_path(bad[0]) if bad else None)
 
-    # ---- R3: every H5Group.delete whose receiver is the analysed entity's own group
-    n3 = 0
-    for cn, name, tb, f in surface(M, ENTITY_CLASSES, ("methods", "setters", "deleters")):
-        if not ctx.cg.writes(f):
-            continue
-        direct = ctx.cg.ops.get(f.qual, ())
-        if not any(o[0] == "layer" and o[1] == "H5Group.delete" for o in direct):
-            continue
-        key = api_key(cn, name, tb)
-        bad = None
-        cnt = 0
-        for p in ctx.paths(f, cn):
-            for e in p.events:
-                if e.kind == "layer" and e.op == "H5Group.delete" and e.recv.t == OWN and e.func == f.qual:
-                    cnt += 1
-                    die = e.kw.get("delete_if_empty")
-                    if die is None or not (is_const(die) and die.t[1] is False):
-                        bad = (p, e)
-        if cnt:
-            n3 += 1
-            rep.check(R3, key, bad is None, "%s unlinks %r on the entity's own group with delete_if_empty left on: when the "
-                      "entity has no other children the entity itself is removed from its parent" % (
-                          key, ctx.fx.key(bad[1]) if bad else ""), site=bad[1].site if bad else None,
-                      detail=describe_path(bad[0]) if bad else None)
+    n3 = role_link_rule(M, rep, R3, ctx)
 
     # ---- R4: delete_all analysed with the other layer members kept as storage events
     from nixsa.layer import layer_config
